@@ -908,6 +908,11 @@ class Interp:
         if isinstance(v, Poly):
             if v.is_const():
                 return v.const_value() != 0
+            if isinstance(self.region, AutoRegion):
+                try:
+                    return v.evalf(self.region) != 0  # generic symbolic data are non-zero; explicit representatives decide the rest
+                except Undecided:
+                    pass
             raise Undecided(f"truth value of symbolic {v}")
         if isinstance(v, (list, tuple, str, dict)):
             return bool(v)
